@@ -34,7 +34,7 @@ check("C18", "internal/utilities/merkle_tree",
       technique="reference-model monitor (explicit-tree model of GP E.1, folding oracle) over all lengths 0..70 and every index",
       level_text="Differential run of every exported Merkle function against an independent explicit-tree model for every length 0..70, every index and page size; held = no divergence on what was explored.",
       note="Trusts the explicit-tree model (ceil split, 'node'/'leaf' prefixes) in harness/internal/utilities/merkle_tree/c18_test.go. PagedProofs/CE-140 users are exercised in separate parts when the erasure stand-in is available.",
-      shards=(8, 16), floors={"any": {"roots_compared": 800, "traces_compared": 20000, "pages_compared": 20000}},
+      shards=(8, 16), floors={"any": {"roots_compared": 800, "traces_compared": 20000, "pages_compared": 20000, "single_element_sequences": 70}},
       exhaustive="all lengths 0..70 x every index x page sizes 2^0..2^6")
 
 check("C19", "internal/zzverif/c19",
@@ -44,7 +44,7 @@ check("C19", "internal/zzverif/c19",
       technique="reference-model monitor (count-based MMR model) + alias-snapshot invariant monitor over append histories",
       level_text="Every intermediate state of generated append histories is compared with an independent model and every previously returned peak list is re-checked for mutation; held = no divergence on what was explored.",
       note="Trusts the count-based model and x/crypto's Keccak. Only exported API (mmr.*, recent_history.AppendAndCommitMmr) is used.",
-      shards=(8, 16), floors={"any": {"appends": 2000, "P_calls": 1500}},
+      shards=(8, 16), floors={"any": {"appends": 2000, "P_calls": 1500, "all_zero_items_appended": 300}},
       assumptions=[STANDIN_VRF])
 
 check("C15", "internal/zzverif/c15",
@@ -79,7 +79,7 @@ check("C24", "internal/zzverif/c24",
       technique="reference-model monitor (authorizer-pool model) over generated pools/queues/guarantees",
       level_text="Differential run against an independent 20-line model on generated transitions under both parameter sets; held = no divergence on what was explored.",
       note="Trusts the pool model in the harness. In-place mutation of the prior pool's backing array is not judged here (atomicity is C26's concern). Cores with a nil pool AND a guarantee are not generated (guarantee validation rejects them earlier).",
-      shards=(8, 16), floors={"any": {"with_guarantees": 20000, "authorizer_absent": 1000, "authorizer_duplicated": 1000, "via_singleton": 1000, "full_params": 100, "blocks_with_several_guarantees_for_one_core": 3000}},
+      shards=(8, 16), floors={"any": {"with_guarantees": 20000, "authorizer_absent": 1000, "authorizer_duplicated": 1000, "via_singleton": 1000, "full_params": 100, "blocks_with_several_guarantees_for_one_core": 3000, "slots_at_or_above_2^16": 10000}},
       assumptions=[STANDIN_VRF])
 
 check("C25", "internal/zzverif/c25",
